@@ -687,6 +687,7 @@ class RewriteRuleSet:
             The number of rewrite rules applied.
         """
         count = 0
+        needs_sort = False
 
         for rule in self.rules:
             if rule.graph_pre_visitor:
@@ -721,10 +722,12 @@ class RewriteRuleSet:
                                 suffix += 1
                             initializer.name = f"{initializer.name}_{suffix}"
                         initializers[initializer.name] = initializer  # type: ignore[index]
-                # TODO: This does not yet handle the problem of determining the correct insertion point
-                # for inserted nodes in the case of patterns with multiple output-nodes. The following
-                # is sufficient for patterns with a single output-node "node", which can serve as the
-                # insertion-point.
+                # For patterns with a single output-node, "node" can serve as the insertion-point.
+                # For patterns with multiple output-nodes the replacement is inserted after "node"
+                # (the node matched by the first output) as well, but a consumer of another output
+                # may precede it: the graph is sorted again after the pass (see below).
+                if not rule._target_pattern.has_single_output_node:  # pylint: disable=protected-access
+                    needs_sort = True
                 onnxscript.optimizer.basic_constant_propagation(delta.new_nodes)
                 if rule.as_function:
                     # Create a function out of a copy of the matched nodes
@@ -805,6 +808,11 @@ class RewriteRuleSet:
                         count += self._apply_to_graph_or_function(
                             model, graph, verbose=verbose, tracer=tracer
                         )
+
+        if needs_sort:
+            # Stable topological sort: restores the order when replacement nodes were inserted
+            # after a consumer of one of the replaced outputs.
+            graph_or_function.sort()
 
         for rule in self.rules:
             if rule.graph_post_visitor:
